@@ -37,7 +37,47 @@ static std::string step(void *band, uint64_t r, bool begun, uint64_t prior, uint
     return "";
 }
 
+static void noop_hello(void *) {}
+
+// cfg[5] = 1: through automata_tick's block-timeout path, r built up by band_on_hello_received; = 2: the Hello deadline expires in the same tick
+static Verdict run_tick(const Case &c) {
+    Verdict v;
+    uint64_t r = (uint64_t)std::max<int64_t>(0, std::min<int64_t>(c.c(0), 100000));
+    bool hello_due = c.c(5) == 2;
+    World w;
+    void *en = br_init_enumeration(), *tb = br_st_create();
+    void *band = br_aut_extra(en);
+    Mac m = {{2, 0, 0, 0, 0, 9}};
+    vp_set_now_ms(10000);
+    br_st_add(tb, m.b, 1, 1);
+    br_aut_set_state(en, 1);
+    br_band_init_stats(band);
+    for (uint64_t k = 0; k < r; k++) br_band_on_hello_received(band);
+    br_band b; br_band_get(band, &b);
+    bool begun = b.begun != 0;
+    uint64_t prior = b.Ni, last = 0;
+    int user = 1;
+    if (hello_due) { b.hello_ts = 10300; br_band_set(band, &b); }
+    vp_set_now_ms(10300);                       // block deadline reached; Hello deadline none pending (mode 1) or due now (mode 2)
+    br_tick(nullptr, en, tb, &user, &last, noop_hello, 1);
+    br_band_get(band, &b);
+    // a Hello transmitted earlier in the same tick begins the enumeration (band_do_hello), so the block that ends in this tick is judged with begun = true
+    bool begun_at_block_end = begun || hello_due;
+    uint64_t wni = want_ni(r, begun_at_block_end, prior);
+    if (begun != (r >= 10)) v.fail(fmt("after %llu Hellos heard in the first block 'begun' is %d (documented: begins once GAMMA = 10 were heard)", (unsigned long long)r, begun));
+    else if (b.Ni != wni) v.fail(fmt("tick path: after %llu Hellos heard and a block timeout%s Ni=%u, formula gives %llu", (unsigned long long)r, hello_due ? " in a tick that also sent a Hello" : "", b.Ni, (unsigned long long)wni));
+    else if (b.r != 0) v.fail("tick path: counter not reset at the end of the block");
+    else if (b.hello_ts < 10300 + min_interval(wni)) v.fail(fmt("tick path: after %llu Hellos heard and a block timeout%s the next Hello is due %llu ms after the tick; the load formula for Ni=%llu demands >= %llu ms",
+                                                               (unsigned long long)r, hello_due ? " in a tick that also sent a Hello" : "", (unsigned long long)(b.hello_ts - 10300), (unsigned long long)wni, (unsigned long long)min_interval(wni)));
+    br_st_destroy(tb);
+    br_automata_destroy(en);
+    v.nontrivial = r > 0 && begun_at_block_end;
+    if (v.nontrivial) v.cls(hello_due ? "tick-path-hello-and-block-in-one-tick" : "tick-path");
+    return v;
+}
+
 static Verdict run(const Case &c) {
+    if (c.c(5) != 0) return run_tick(c);
     Verdict v;
     World w;
     void *en = br_init_enumeration();
@@ -69,8 +109,6 @@ static bool one(const Args &a, Evidence &ev, uint64_t r, int begun, uint64_t pri
     if (!v.ok) { write_file(a.failing, std::string("# ") + part + ": " + v.why + "\n" + c.to_text()); fprintf(stderr, "FAIL part=%s %s\n", part, v.why.c_str()); return false; }
     return true;
 }
-
-static void noop_hello(void *) {}
 
 int main(int argc, char **argv) {
     Args a = parse_args(argc, argv);
@@ -137,35 +175,15 @@ int main(int argc, char **argv) {
     for (size_t i = a.shard; i < rs.size() && ok; i += a.nshards)
         for (int begun = 0; begun < 2 && ok; begun++)
             ok = one(a, ev, rs[i], begun, priors[(i / a.nshards + begun) % priors.size()], "c13-sample");
-    // through automata_tick's block-timeout path, r built up by band_on_hello_received
-    for (uint64_t r = a.shard; r <= 200 && ok; r += a.nshards) {
-        World w;
-        void *en = br_init_enumeration(), *tb = br_st_create();
-        void *band = br_aut_extra(en);
-        Mac m = {{2, 0, 0, 0, 0, 9}};
-        vp_set_now_ms(10000);
-        br_st_add(tb, m.b, 1, 1);
-        br_aut_set_state(en, 1);
-        br_band_init_stats(band);
-        for (uint64_t k = 0; k < r; k++) br_band_on_hello_received(band);
-        br_band b; br_band_get(band, &b);
-        bool begun = b.begun != 0;
-        uint64_t prior = b.Ni, last = 0;
-        vp_set_now_ms(10000 + 300);                       // block deadline reached; hello deadline is 0 (none pending)
-        br_tick(nullptr, en, tb, nullptr, &last, noop_hello, 1);
-        br_band_get(band, &b);
-        uint64_t wni = want_ni(r, begun, prior);
-        ev.evaluations++;
+    // through automata_tick's block-timeout path (mode 1) and with the Hello deadline due in the same tick (mode 2)
+    for (uint64_t rr = a.shard; rr <= 401 && ok; rr += a.nshards) {
+        Case c; c.cfg = {(int64_t)(rr % 201), 0, 0, 10300, 0, rr > 200 ? 2 : 1};
+        CurrentScope scope(c);
+        Verdict v = run(c);
+        ev.note(c.digest(), v.nontrivial && v.ok, [&] { return c.to_text(); });
         ev.count("c13-tick-path:cases");
-        if (begun != (r >= 10)) { fprintf(stderr, "FAIL part=c13-tick-path begun=%d after %llu Hellos\n", begun, (unsigned long long)r); ok = false; }
-        else if (b.Ni != wni || b.r != 0 || b.hello_ts < 10300 + min_interval(wni)) {
-            Case c; c.cfg = {(int64_t)r, begun, (int64_t)prior, 10300, 0};
-            write_file(a.failing, fmt("# c13-tick-path: after %llu Hellos heard and a block timeout: Ni=%u (want %llu), r=%u, hello deadline %llu\n", (unsigned long long)r, b.Ni, (unsigned long long)wni, b.r, (unsigned long long)b.hello_ts) + c.to_text());
-            fprintf(stderr, "FAIL part=c13-tick-path r=%llu\n", (unsigned long long)r);
-            ok = false;
-        }
-        br_st_destroy(tb);
-        br_automata_destroy(en);
+        for (auto &k : v.classes) ev.count("c13-tick-path:" + k);
+        if (!v.ok) { write_file(a.failing, "# c13-tick-path: " + v.why + "\n" + c.to_text()); fprintf(stderr, "FAIL part=c13-tick-path %s\n", v.why.c_str()); ok = false; }
     }
 #endif
     ev.write(a.out);
